@@ -1,4 +1,7 @@
 """Unit `types`: feel/src/types.rs (C16; termination of is_equivalent for C05)."""
+import os, sys
+sys.path.insert(0, os.path.dirname(os.path.abspath(__file__)))
+import _common as C
 
 CTX_INV = lambda S, O: [
     ('ctx_self', '*self is Context, self->Context_0 == *entries_self'),
@@ -7,16 +10,8 @@ CTX_INV = lambda S, O: [
 
 UNIT = {
     'name': 'types',
-    'uses': [
-        'use std::collections::BTreeMap;',
-        'use vstd::std_specs::iter::IteratorSpec;',
-    ],
-    'parts': [
-        {'kind': 'item', 'src': 'feel/src/names.rs', 'path': 'struct Name',
-         'derive': '#[derive(PartialEq, Eq, PartialOrd, Ord)]',
-         'attrs': '#[verifier::external_body]'},
-        {'kind': 'vrs', 'file': 'common/name.vrs'},
-        {'kind': 'item', 'src': 'feel/src/types.rs', 'path': 'enum FeelType'},
+    'uses': C.USES,
+    'parts': C.NAME + C.FEELTYPE + C.VALUE + [
         {'kind': 'vrs', 'file': 'types/spec.vrs'},
         {'kind': 'vrs', 'file': 'types/lemmas.vrs'},
         # ---------------------------------------------------------------- is_equivalent
@@ -91,6 +86,31 @@ UNIT = {
                  'body_prefix': 'proof { lemma_conf_flip(parameters_self@[i as int], parameters_other@[i as int]); }',
              },
          },
+         },
+        # ---------------------------------------------------------------- type_of (assumed for now)
+        {'kind': 'vrs', 'file': 'types/spec_coerce.vrs'},
+        {'kind': 'text', 'note': 'assumed-contract', 'text': """impl Value {
+  #[verifier::external_body]
+  pub fn type_of(&self) -> (r: FeelType) ensures type_rel(*self, r) { unimplemented!() }
+}
+impl Values {
+  #[verifier::external_body]
+  pub fn new(values: Vec<Value>) -> (r: Values) ensures r.0 == values { unimplemented!() }
+  #[verifier::external_body]
+  pub fn len(&self) -> (r: usize) ensures r == self.0@.len() { unimplemented!() }
+  #[verifier::external_body]
+  pub fn as_vec(&self) -> (r: &Vec<Value>) ensures *r == self.0 { unimplemented!() }
+}"""},
+        {'kind': 'item', 'src': 'feel/src/values.rs', 'path': 'macro_rules! value_null'},
+        {'kind': 'vrs', 'file': 'types/lemmas_coerce.vrs'},
+        # ---------------------------------------------------------------- coerced
+        {'kind': 'fn', 'src': 'feel/src/types.rs', 'path': 'impl FeelType::fn coerced',
+         'key': 'types::FeelType::coerced',
+         'props': ['C16'], 'auto_props': ['C16', 'C05'],
+         'ret': 'r',
+         'ensures': [('post_coerce', 'forall |tv: FeelType| type_rel(*actual_value, tv) ==> coerce_post(*self, *actual_value, tv, r)')],
+         'body_prefix': 'proof { lemma_coerce_tests_indep(*actual_value, *self); }',
+         'loops': 0,
          },
     ],
 }
